@@ -1394,3 +1394,15 @@ def contradicting_edges(body, decisions):
             if sc != succ:
                 out.append((sb, sc))
     return out
+
+
+def strip_sites(t):
+    """drop call-site identities (block ids) from call/await terms: two calls of the same function on the same
+    argument terms compare equal (valid for pure accessors; callers decide when that is appropriate)"""
+    if isinstance(t, frozenset):
+        return frozenset(strip_sites(x) for x in t)
+    if not isinstance(t, tuple):
+        return t
+    if len(t) == 4 and t and t[0] in ("call", "await") and isinstance(t[1], str):
+        return (t[0], t[1], tuple(strip_sites(a) for a in t[2]), None)
+    return tuple(strip_sites(x) if isinstance(x, (tuple, frozenset)) else x for x in t)
